@@ -77,12 +77,12 @@ type child struct {
 	skipping  bool
 	flush     func()
 	lastFlush time.Time
-	t     *testing.T
-	conf  childConf
-	fx    *fixture
-	out   *childOut
-	known map[string]bool
-	last  *callCase // most recent failing case (rapid's final run is the shrunk one)
+	t         *testing.T
+	conf      childConf
+	fx        *fixture
+	out       *childOut
+	known     map[string]bool
+	last      *callCase // most recent failing case (rapid's final run is the shrunk one)
 }
 
 func (c *child) label(l ...string) {
